@@ -60,6 +60,8 @@ structure Inv (input : List Char) (s : PState) : Prop where
   errs : ∀ e ∈ s.errors, ErrOk input e
   ne : s.cur ≠ .Eof → s.curText ≠ []
   capOk : s.curText.length + s.src.rest.length + 2 ≤ s.cap
+  /-- look-ahead and token source are what `n` rounds of `save; lex` lead to -/
+  chain : ∃ n, Src.chain input n = (s.cur, s.src)
 
 namespace PState
 
@@ -73,15 +75,15 @@ theorem inv_init (input : List Char) : Inv input (PState.init input) := by
   | mk t src =>
     rw [he] at h1 h2 h3 h4
     refine ⟨by simpa [builderText, parentsText, Src.init] using h1, by simp [builderText, parentsText],
-           h2, h3, by simp, h4, ?_⟩
+           h2, h3, by simp, h4, ?_, ⟨0, by simp [Src.chain, he]⟩⟩
     have := congrArg List.length h1
     simp [Src.init] at this ⊢; omega
 
 theorem inv_flag {input s} (h : Inv input s) (b : Bool) : Inv input { s with flag := b } :=
-  ⟨h.text, h.pos, h.eof, h.err, h.errs, h.ne, h.capOk⟩
+  ⟨h.text, h.pos, h.eof, h.err, h.errs, h.ne, h.capOk, h.chain⟩
 
 theorem inv_error {input s} (h : Inv input s) (m : String) : Inv input (s.error m) := by
-  refine ⟨h.text, h.pos, h.eof, h.err, ?_, h.ne, h.capOk⟩
+  refine ⟨h.text, h.pos, h.eof, h.err, ?_, h.ne, h.capOk, h.chain⟩
   intro e he
   simp only [PState.error, List.mem_cons] at he
   rcases he with rfl | he
@@ -95,7 +97,8 @@ theorem builderText_pushTok (s : PState) : builderText s.pushTok.b = builderText
 theorem inv_save {input s s1} (h : Inv input s) (hs : s.save = .ok s1) :
     builderText s1.b ++ s1.src.rest = input ∧ s1.curStart = s.curStart ∧ s1.curText = s.curText ∧
     builderText s1.b = builderText s.b ++ s.curText ∧ (∀ e ∈ s1.errors, ErrOk input e) ∧
-    (s.cur = .Eof → s1.src.rest = []) ∧ s1.src.rest = s.src.rest ∧ s1.cap = s.cap := by
+    (s.cur = .Eof → s1.src.rest = []) ∧ s1.src.rest = s.src.rest ∧ s1.cap = s.cap ∧
+    s1.cur = s.cur ∧ s1.src = Src.pull s.cur s.src := by
   have hb := builderText_pushTok s
   unfold PState.save at hs
   split at hs
@@ -105,7 +108,9 @@ theorem inv_save {input s s1} (h : Inv input s) (hs : s.save = .ok s1) :
     rw [hte] at hs
     simp only [Res.ok.injEq] at hs
     subst hs
-    refine ⟨?_, rfl, rfl, hb, ?_, ?_, hrest, rfl⟩
+    have hpull : src' = Src.pull s.cur s.src := by
+      simp only [Src.pull, hcur, beq_self_eq_true, if_true, hte]
+    refine ⟨?_, rfl, rfl, hb, ?_, ?_, hrest, rfl, rfl, hpull⟩
     · show builderText s.pushTok.b ++ src'.rest = input
       rw [hb, hrest]; simpa [List.append_assoc] using h.text
     · intro e he
@@ -114,9 +119,12 @@ theorem inv_save {input s s1} (h : Inv input s) (hs : s.save = .ok s1) :
       · exact ⟨builderText s.b, s.curText, s.src.rest, h.text.symm, h.pos, by show s.curStart + byteLen s.curText = _; rw [h.pos]⟩
       · exact h.errs e he
     · intro hc; rw [hcur] at hc; cases hc
-  · simp only [Res.ok.injEq] at hs
+  · rename_i hcur
+    simp only [Res.ok.injEq] at hs
     subst hs
-    refine ⟨?_, rfl, rfl, hb, h.errs, ?_, rfl, rfl⟩
+    have hpull : s.src = Src.pull s.cur s.src := by
+      simp only [Src.pull, hcur, Bool.false_eq_true, if_false]
+    refine ⟨?_, rfl, rfl, hb, h.errs, ?_, rfl, rfl, rfl, hpull⟩
     · show builderText s.pushTok.b ++ s.src.rest = input
       rw [hb]; simpa [List.append_assoc] using h.text
     · intro hc; exact (h.eof hc).2
@@ -131,7 +139,10 @@ theorem save_ok {input s} (h : Inv input s) : ∃ s1, s.save = .ok s1 := by
   · exact ⟨_, rfl⟩
 
 theorem inv_save_lex {input s s1} (h : Inv input s) (hs : s.save = .ok s1) : Inv input s1.lex := by
-  obtain ⟨h1, h2, h3, h4, h5, h6, h7, h8⟩ := inv_save h hs
+  obtain ⟨h1, h2, h3, h4, h5, h6, h7, h8, h9, h10⟩ := inv_save h hs
+  obtain ⟨n, hn⟩ := h.chain
+  have hch : Src.chain input (n+1) = ((s1.src.eat).1.kind, (s1.src.eat).2) := by
+    simp only [Src.chain, hn, h10]
   unfold PState.lex
   have ha := Src.eat_append s1.src
   have he := Src.eat_eof s1.src
@@ -141,7 +152,8 @@ theorem inv_save_lex {input s s1} (h : Inv input s) (hs : s.save = .ok s1) : Inv
   | mk t src =>
     rw [hle] at ha he hr hn
     simp only [] at ha he hr hn ⊢
-    refine ⟨?_, ?_, he, hr, h5, hn, ?_⟩
+    rw [hle] at hch
+    refine ⟨?_, ?_, he, hr, h5, hn, ?_, ⟨n+1, hch⟩⟩
     · simp only []; rw [List.append_assoc, ha]; exact h1
     · simp only []; rw [h2, h3, h4, h.pos]; simp
     · have hl := congrArg List.length ha
@@ -170,7 +182,7 @@ theorem inv_eat {input s s'} (h : Inv input s) (hs : s.eat = .ok s') : Inv input
 theorem inv_startNode {input s} (h : Inv input s) (k : SyntaxKind) : Inv input (s.startNode k) := by
   have hb : builderText (s.startNode k).b = builderText s.b := by
     simp [PState.startNode, builderText, parentsText]
-  exact ⟨by rw [hb]; exact h.text, by rw [hb]; exact h.pos, h.eof, h.err, h.errs, h.ne, h.capOk⟩
+  exact ⟨by rw [hb]; exact h.text, by rw [hb]; exact h.pos, h.eof, h.err, h.errs, h.ne, h.capOk, h.chain⟩
 
 theorem inv_finishNode {input s s'} (h : Inv input s) (hs : s.finishNode = .ok s') : Inv input s' := by
   unfold PState.finishNode at hs
@@ -180,7 +192,7 @@ theorem inv_finishNode {input s s'} (h : Inv input s) (hs : s.finishNode = .ok s
     simp only [Res.ok.injEq] at hs; subst hs
     have hb : builderText { cur := Tree.node k s.b.cur.reverse :: sibs, parents := ps } = builderText s.b := by
       simp [builderText, hp, parentsText, revText, List.append_assoc]
-    exact ⟨by simp only []; rw [hb]; exact h.text, by simp only []; rw [hb]; exact h.pos, h.eof, h.err, h.errs, h.ne, h.capOk⟩
+    exact ⟨by simp only []; rw [hb]; exact h.text, by simp only []; rw [hb]; exact h.pos, h.eof, h.err, h.errs, h.ne, h.capOk, h.chain⟩
 
 theorem inv_startNodeAt {input s s'} (h : Inv input s) (cp : Nat × Nat) (k : SyntaxKind)
     (hs : s.startNodeAt cp k = .ok s') : Inv input s' := by
@@ -194,7 +206,7 @@ theorem inv_startNodeAt {input s s'} (h : Inv input s) (cp : Nat × Nat) (k : Sy
                               parents := (k, s.b.cur.drop (s.b.cur.length - cp.2)) :: s.b.parents }
           = builderText s.b := by
         simp [builderText, parentsText, List.append_assoc, revText_take_drop]
-      exact ⟨by simp only []; rw [hb]; exact h.text, by simp only []; rw [hb]; exact h.pos, h.eof, h.err, h.errs, h.ne, h.capOk⟩
+      exact ⟨by simp only []; rw [hb]; exact h.text, by simp only []; rw [hb]; exact h.pos, h.eof, h.err, h.errs, h.ne, h.capOk, h.chain⟩
 
 end PState
 
@@ -212,10 +224,10 @@ theorem inv_exec (defs : Defs) (recover : List TokenKind) (input : List Char) :
     | finishNode => simp only [exec] at h; exact PState.inv_finishNode hi h
     | pushCp =>
       simp only [exec, Res.ok.injEq] at h; subst h
-      exact ⟨hi.text, hi.pos, hi.eof, hi.err, hi.errs, hi.ne, hi.capOk⟩
+      exact ⟨hi.text, hi.pos, hi.eof, hi.err, hi.errs, hi.ne, hi.capOk, hi.chain⟩
     | popCp =>
       simp only [exec, Res.ok.injEq] at h; subst h
-      exact ⟨hi.text, hi.pos, hi.eof, hi.err, hi.errs, hi.ne, hi.capOk⟩
+      exact ⟨hi.text, hi.pos, hi.eof, hi.err, hi.errs, hi.ne, hi.capOk, hi.chain⟩
     | startNodeAtCp k =>
       simp only [exec] at h
       split at h
@@ -289,13 +301,13 @@ theorem inv_exec (defs : Defs) (recover : List TokenKind) (input : List Char) :
     | call f => simp only [exec] at h; exact ih _ s s' hi h
     | pushLocal =>
       simp only [exec, Res.ok.injEq] at h; subst h
-      exact ⟨hi.text, hi.pos, hi.eof, hi.err, hi.errs, hi.ne, hi.capOk⟩
+      exact ⟨hi.text, hi.pos, hi.eof, hi.err, hi.errs, hi.ne, hi.capOk, hi.chain⟩
     | popLocal =>
       simp only [exec, Res.ok.injEq] at h; subst h
-      exact ⟨hi.text, hi.pos, hi.eof, hi.err, hi.errs, hi.ne, hi.capOk⟩
+      exact ⟨hi.text, hi.pos, hi.eof, hi.err, hi.errs, hi.ne, hi.capOk, hi.chain⟩
     | setLocal =>
       simp only [exec, Res.ok.injEq] at h; subst h
-      exact ⟨hi.text, hi.pos, hi.eof, hi.err, hi.errs, hi.ne, hi.capOk⟩
+      exact ⟨hi.text, hi.pos, hi.eof, hi.err, hi.errs, hi.ne, hi.capOk, hi.chain⟩
     | ifLocal t e =>
       simp only [exec] at h
       split at h
